@@ -67,6 +67,12 @@ def other_operations(chk, th):
         out["parent with heralded CNOT"] = p
         g = lw.Circuit(3); g.bs(0, 2, convention="H"); g.mode_swaps({0: 1, 1: 2, 2: 0}); g.barrier([0, 2]); g.add(lw.Unitary(lw.random_unitary(2, seed=3)), 1, group=True)
         out["groups swaps barrier"] = g
+        # circuits whose component list is exactly ONE group (what add() produces), with a herald of their own on different in / out modes
+        inner = lw.Circuit(3); inner.bs(0, 1); inner.ps(1, 0.6); inner.bs(1, 2, convention="H")
+        sg = lw.Circuit(3); sg.add(inner, 0, group=True); sg.herald(1, 0, 2)
+        out["single group, own herald in!=out"] = sg
+        sg2 = lw.Circuit(4); sg2.add(qubit.CZ_Heralded(), 0)
+        out["single heralded gate"] = sg2
         return out
 
     def guarded(what, objs, states, fn):
@@ -123,6 +129,15 @@ def other_operations(chk, th):
                 tot[0] = c + d
                 tot[0].ps(0, 0.5); tot[0].compress_mode_swaps(); tot[0].remove_non_adjacent_bs(); tot[0].unpack_groups()
             guarded("a + b then edits of the sum, " + name, {name: c, "d": d}, [], plus_then_edit)
+        # the circuit as the ARGUMENT of add (grouped and not, twice, onto a parent that already owns an ancilla)
+        for grp in (True, False):
+            def add_twice():
+                par = lw.Circuit(c.input_modes + 3)
+                par.add(qubit.CZ_Heralded(), 0)
+                par.add(c, 1, group=grp)
+                par.add(c, 2, group=grp)
+                par.U_full
+            guarded("parent.add(x, group=%s) twice, x = %s" % (grp, name), {name: c}, [], add_twice)
         cp = [None]
 
         def copy_then_edit():
